@@ -562,7 +562,9 @@ class Exec(object):
             return TupleV([self.zero(e) for e in self.U(tid)['elems']])
         raise Unsupported('zero of kind %s' % k)
 
-    def fresh_value(self, prefix, tid, valid=True):
+    def fresh_value(self, prefix, tid, valid=True, bound='entry'):
+        """bound: upper bound for addresses held by the value ('entry' = alloc0, a term, or None)"""
+        bound_t = self.alloc0 if bound == 'entry' else bound
         """arbitrary value of type tid (with Go type validity assumed)"""
         c = self.ctx
         k = self.kind(tid)
@@ -570,8 +572,8 @@ class Exec(object):
             a, o, l = c.fresh(prefix + '.arr', INT), c.fresh(prefix + '.off', INT), c.fresh(prefix + '.len', INT)
             if valid:
                 c.assume(and_(le(ZERO, a), le(ZERO, o), le(ZERO, l), le(add(o, l), I(MAXLEN))))
-                if self.alloc0 is not None:
-                    c.assume(lt(a, self.alloc0))
+                if bound_t is not None:
+                    c.assume(lt(a, bound_t))
             return StrV(a, o, l)
         if self.is_bool(tid):
             return c.fresh(prefix, BOOL)
@@ -587,8 +589,8 @@ class Exec(object):
             t = c.fresh(prefix, INT)
             if valid:
                 c.assume(le(ZERO, t))
-                if self.alloc0 is not None:
-                    c.assume(lt(t, self.alloc0))
+                if bound_t is not None:
+                    c.assume(lt(t, bound_t))
             return PtrV(t, self.U(tid)['elem'])
         if k in ('map', 'chan', 'func', 'interface'):
             t = c.fresh(prefix, INT)
@@ -600,18 +602,18 @@ class Exec(object):
             if valid:
                 c.assume(and_(le(ZERO, a), le(ZERO, o), le(ZERO, l), le(l, cp), le(add(o, cp), I(MAXLEN))))
                 c.assume(implies(eq(a, ZERO), eq(cp, ZERO)))
-                if self.alloc0 is not None:
-                    c.assume(lt(a, self.alloc0))
+                if bound_t is not None:
+                    c.assume(lt(a, bound_t))
             return SliceV(a, o, l, cp, self.U(tid)['elem'])
         if k == 'struct':
-            return StructV(tid, dict((f['name'], self.fresh_value(prefix + '.' + f['name'], f['type'], valid)) for f in self.struct_fields(tid)))
+            return StructV(tid, dict((f['name'], self.fresh_value(prefix + '.' + f['name'], f['type'], valid, bound)) for f in self.struct_fields(tid)))
         if k == 'array':
             u = self.U(tid)
             if u['len'] > 64:
                 raise Unsupported('fresh value of large array %s' % tid)
-            return ArrV(tid, [self.fresh_value('%s.%d' % (prefix, i), u['elem'], valid) for i in range(u['len'])], u['elem'])
+            return ArrV(tid, [self.fresh_value('%s.%d' % (prefix, i), u['elem'], valid, bound) for i in range(u['len'])], u['elem'])
         if k == 'tuple':
-            return TupleV([self.fresh_value('%s.%d' % (prefix, i), e, valid) for i, e in enumerate(self.U(tid)['elems'])])
+            return TupleV([self.fresh_value('%s.%d' % (prefix, i), e, valid, bound) for i, e in enumerate(self.U(tid)['elems'])])
         raise Unsupported('fresh_value kind %s' % k)
 
     def assume_valid(self, v, tid):
